@@ -35,6 +35,9 @@ CHECKS = {
     "C16": dict(level="exploration", technique="deterministic simulation (job-completion-order exploration and importer-file angle re-representation / row shuffling; per-update monitor with independent wrap and circular-mean references)",
                 text="the order of simultaneous observations (completion order of task jobs, row order of an importer file) and the representation of stored azimuths (+-k turns, signed range) are the explored dimensions; each UKF update is judged as a function of (prior, observations), and every update is monitored against rsim's own wrapped difference and weighted circular mean; targets are placed on the 0/360 and 180 degree azimuths",
                 note="helper identities are exercised on values runs produce, not on all inputs; posterior tolerance 1e-9 relative + 100*eps*cond(S)*|update|, updates with cond(S) > 4e10 not judged"),
+    "C17": dict(level="exploration", technique="deterministic simulation (run-built innovation histories with varying dimension; lock-step reference detector; scaled-innovation monotonicity probe; task retry)",
+                text="full estimation runs with each detector kind and drawn thresholds / windows / fading factors over mixed optical/radar networks and unplanned impulses; a reference detector holding the (NIS, dimension) history is stepped on exactly the innovations and covariances the filter passes to the real detector",
+                note="scipy chi2.isf is the bound; near-bound calls indeterminate; histories up to 8 (quick) / 16 (thorough) steps; fading-memory dof with varying dimension accepts three readings"),
     "C19": dict(level="fault_enumeration", technique="deterministic simulation with fault injection on external data (two-phase runs; importer file with seeded gaps / extras / duplicates / shuffles; per-step state, error-type and file-hash oracles)",
                 text="phase 1 produces a real output database, rsim.importer mutates it into an importer file (gaps at chosen or - thorough - all (agent, epoch) cells, dropped agents, 1-20 unrelated agents, duplicated and shuffled rows), phase 2 runs with targets/sensors/observations imported; imported states must be bit-equal to the rows, a gap must stop the run with MissingEphemerisError at that step and never otherwise, imported observations must reach exactly their target's update, the file hash must not change",
                 note="importer schema = output schema of the same code; run as root so read-only-ness is judged by file hash, not permissions"),
